@@ -258,6 +258,13 @@ fn handle(vm: &mut Option<Vm>, line: &str) -> String {
             }
             last
         }
+        "trace" => {
+            // number of frames of the stack trace the persistent VM reports for its last evaluation
+            match vm.as_ref().and_then(|v| v.last_stacktrace()) {
+                Some(t) => format!("FRAMES {}", t.frames.len()),
+                None => "NOTRACE".into(),
+            }
+        }
         #[cfg(feature = "hooks")]
         "gcstep" => {
             // one collection from a fabricated state
